@@ -147,7 +147,7 @@ class Prog:
                 self.uses.add("index_cast")
             elif depth < 2:
                 lb, ub, st = self.fresh(), self.fresh(), self.fresh()
-                self.emit(ind, f"{lb} = arith.constant {rng.choice([0, 0, 1, 2])} : index")
+                self.emit(ind, f"{lb} = arith.constant {rng.choice([0, 0, 1, 2, -1, -3, -5])} : index")
                 self.emit(ind, f"{ub} = arith.constant {rng.choice([0, 1, 2, 3, 4, 5])} : index")
                 self.emit(ind, f"{st} = arith.constant {rng.choice([1, 1, 2, 3])} : index")
                 nit = rng.choice([1, 1, 2])
@@ -191,6 +191,50 @@ class Prog:
                 env.append((v, "i32"))
 
 
+def directed_nest(p, env, ind):
+    """Directed shape: a 2-deep loop nest whose INNER body reads a value computed in the OUTER body (neither an
+    induction variable nor loop carried), both loops run several times, temporaries are defined in the inner body
+    after that read, and the result of the nest is returned. Returns the name of the nest's result."""
+    rng = p.rng
+    ops = ["addi", "subi", "muli", "xori", "ori", "andi"]
+    lb, n, m, st = p.fresh(), p.fresh(), p.fresh(), p.fresh()
+    p.emit(ind, f"{lb} = arith.constant {rng.choice([0, 0, -2, 1])} : index")
+    p.emit(ind, f"{n} = arith.constant {rng.choice([2, 3, 4])} : index")
+    p.emit(ind, f"{m} = arith.constant {rng.choice([2, 3, 5])} : index")
+    p.emit(ind, f"{st} = arith.constant 1 : index")
+    init = p.pick(env, "i32", ind)
+    r, i, acc = p.fresh(), p.fresh(), p.fresh()
+    p.emit(ind, f"{r} = scf.for {i} = {lb} to {n} step {st} iter_args({acc} = {init}) -> (i32) {{")
+    i2 = ind + "  "
+    ii, t = p.fresh(), p.fresh()
+    p.emit(i2, f"{ii} = arith.index_cast {i} : index to i32")
+    p.emit(i2, f"{t} = arith.{rng.choice(ops)} {ii}, {rng.choice([ii, acc, p.pick(env, 'i32', i2)])} : i32")
+    outer_vals = [t]
+    for _ in range(rng.choice([0, 1, 2])):
+        u = p.fresh()
+        p.emit(i2, f"{u} = arith.{rng.choice(ops)} {rng.choice(outer_vals + [acc])}, {p.pick(env, 'i32', i2)} : i32")
+        outer_vals.append(u)
+    r2, j, acc2 = p.fresh(), p.fresh(), p.fresh()
+    p.emit(i2, f"{r2} = scf.for {j} = {lb} to {m} step {st} iter_args({acc2} = {acc}) -> (i32) {{")
+    i3 = i2 + "  "
+    jj, x, y = p.fresh(), p.fresh(), p.fresh()
+    p.emit(i3, f"{jj} = arith.index_cast {j} : index to i32")
+    p.emit(i3, f"{x} = arith.{rng.choice(ops)} {jj}, {rng.choice(outer_vals)} : i32")
+    p.emit(i3, f"{y} = arith.{rng.choice(ops)} {acc2}, {x} : i32")
+    last = y
+    for _ in range(rng.choice([1, 2, 3])):
+        k = p.fresh()
+        p.emit(i3, f"{k} = arith.{rng.choice(ops)} {last}, {rng.choice([x, jj, rng.choice(outer_vals), p.pick(env, 'i32', i3)])} : i32")
+        last = k
+    p.emit(i3, f"scf.yield {last} : i32")
+    p.emit(i2, "}")
+    p.emit(i2, f"scf.yield {r2} : i32")
+    p.emit(ind, "}")
+    p.uses.add("directed-nest")
+    env.append((r, "i32"))
+    return r
+
+
 def gen_program(rng):
     p = Prog(rng, rng.choice(["f32", "f64"]), rng.choice(["f32", "f64"]))
     nint, nflt = rng.randint(1, 4), rng.randint(0, 3)
@@ -199,6 +243,8 @@ def gen_program(rng):
     p.body(env, "  ", 0, rng.choice([2, 4, 7, 12]))
     nret = rng.choice([1, 1, 2])
     rets = [rng.choice(env) for _ in range(nret)]
+    if rng.random() < 0.3:
+        rets[0] = (directed_nest(p, env, "  "), "i32")
     sig = ", ".join(f"{a}: {t}" for a, t in args)
     text = (f"func.func public @main({sig}) -> ({', '.join(t for _, t in rets)}) {{\n" + "\n".join(p.lines) +
             f"\n  func.return {', '.join(v for v, _ in rets)} : {', '.join(t for _, t in rets)}\n}}\n")
